@@ -19,6 +19,7 @@ import (
 	"strconv"
 	"strings"
 	"sync"
+	"syscall"
 	"time"
 )
 
@@ -417,6 +418,7 @@ func Main() {
 		if r := os.Getenv("VERIF_RESUME"); r != "" {
 			c.resume, c.resuming = r, true
 		}
+		limitAddressSpace()
 		st := p.Worker(c)
 		EmitPartial(st)
 		os.Exit(0)
@@ -442,6 +444,24 @@ func Main() {
 	default:
 		Fatal("unknown mode %q", os.Args[1])
 	}
+}
+
+// limitAddressSpace caps a worker's address space (the 4 GiB small-int
+// reservation of starlark.Int plus 10 GiB), so that a case that allocates
+// without bound kills its worker instead of exhausting the machine. A
+// property that sets its own, tighter limit later (C02) still can. Race
+// builds are exempt: the detector's shadow memory needs terabytes of
+// address space.
+func limitAddressSpace() {
+	if raceBuild || os.Getenv("VERIF_NO_RLIMIT") != "" {
+		return
+	}
+	lim := uint64(14) << 30
+	var cur syscall.Rlimit
+	if syscall.Getrlimit(syscall.RLIMIT_AS, &cur) == nil && cur.Cur < lim {
+		return
+	}
+	syscall.Setrlimit(syscall.RLIMIT_AS, &syscall.Rlimit{Cur: lim, Max: cur.Max})
 }
 
 func runCheck(p *Prop, tier string) int {
